@@ -293,4 +293,20 @@ theorem angleRun_ok (ns : Nat) (btw : Nat → Nat → Bool) (hns : 1 ≤ ns) :
     rw [allOk_append, allOk_cons]
     exact ⟨⟨⟨by simp only; omega, by simp only; omega⟩, f1⟩, o1⟩
 
+/-! ## interpolate: poles and spline coefficients -/
+
+theorem polesAccesses_ok (order : Int) : ∀ l, polesAccesses order = some l → allOk l = true := by
+  intro l h
+  unfold polesAccesses at h
+  split_ifs at h with h1 h2
+  · simp only [Option.map_some, Option.some.injEq] at h; subst h; decide
+  · simp only [Option.map_some, Option.some.injEq] at h; subst h; decide
+  · simp at h
+
+theorem splineCoeffStores_ok (order : Int) : allOk (splineCoeffStores order) = true := by
+  rw [allOk_iff]; intro a ha
+  simp only [splineCoeffStores, List.mem_map, List.mem_range, Int.ofNat_eq_natCast] at ha
+  obtain ⟨hh, h, rfl⟩ := ha
+  exact ⟨by simp only; omega, by simp only; omega⟩
+
 end Mahotas.C10Feat
